@@ -114,6 +114,19 @@ pub fn oneshot_case(tr: &mut Tr, id: &str, prop: &str, input: &[u8], level: u8, 
     tr.ev(json!({"ev": "roundtrip", "dec": dec_summary(zlib, &out)}));
 }
 
+/// Cheap exploration of the one-shot helpers: returns true if the crate's own round trip is off.
+pub fn oneshot_suspicious(input: &[u8], level: u8, zlib: bool) -> bool {
+    let r = catch_unwind(AssertUnwindSafe(|| {
+        let z = if zlib { compress_to_vec_zlib(input, level) } else { compress_to_vec(input, level) };
+        let d = if zlib { decompress_to_vec_zlib(&z) } else { decompress_to_vec(&z) };
+        match d {
+            Ok(v) => v != input,
+            Err(_) => true,
+        }
+    }));
+    r.unwrap_or(true)
+}
+
 pub struct Cfg {
     pub zlib: bool,
     pub level: u8,
